@@ -61,7 +61,7 @@ fn check_palette_chunk(data: &[u8], max_entries: u32) -> bool {
             }
         }
     }
-    match (got, want) {
+    match (&got, want) {
         (Ok(p), true) => {
             assert!(p.num_colors() == n, "one entry per index in first..=last");
             let mut k = 0u32;
@@ -89,28 +89,32 @@ fn check_palette_chunk(data: &[u8], max_entries: u32) -> bool {
         (Ok(_), false) => assert!(false, "decoder accepted a palette chunk the format rejects"),
         (Err(_), true) => assert!(false, "decoder rejected a well-formed palette chunk"),
     }
+    core::mem::forget(got); // dropping io::Error (bit-packed pointer repr) is very expensive for CBMC
     decoded_ok
 }
 
 macro_rules! palette_shape {
-    ($hname:ident, $n:expr, $u:expr, $can_ok:expr) => {
+    ($hname:ident, $n:expr, $u:expr, $can_ok:expr, [$([$(($off:expr, $val:expr)),*]),*]) => {
         crate::verif_harness! {
-            /// palette::parse_chunk on every payload of exactly $n bytes (first/last index, flags, names symbolic).
-            /// No arithmetic overflow for any first/last (incl. 0..=u32::MAX).
+            /// palette::parse_chunk on every payload of exactly $n bytes (first/last index, entry flags, colours symbolic); no overflow for any first/last.
+            /// Length fields of strings are pinned to the listed concrete values (one decoder run per pin set); every other byte is symbolic.
             #[kani::stub(std::fmt::format, crate::verif_spec::stubs::format_stub)]
             #[kani::unwind($u)]
             fn $hname(s) {
-                let d: [u8; $n] = s.bytes();
-                let ok = check_palette_chunk(&d, 4);
-                crate::vcover!(ok || !$can_ok, "a well-formed payload of this size decodes");
-                crate::vcover!(!ok, "a malformed payload of this size is rejected");
+                let mut d: [u8; $n] = s.bytes();
+                $(
+                    $( crate::verif_spec::pin16(&mut d, $off, $val); )*
+                    let ok = check_palette_chunk(&d, 4);
+                    crate::vcover!(ok || !$can_ok, "a well-formed payload decodes");
+                    crate::vcover!(!ok, "a malformed payload is rejected");
+                )*
             }
         }
     };
 }
-palette_shape!(k_palette_chunk_20, 20, 6, false); // header only: any non-empty range runs out of data
-palette_shape!(k_palette_chunk_26, 26, 6, true); // one unnamed entry
-palette_shape!(k_palette_chunk_35, 35, 9, true); // two unnamed, or one named (<= 7-byte name)
+palette_shape!(k_palette_chunk_20, 20, 4, false, [[]]); // header only
+palette_shape!(k_palette_chunk_26, 26, 4, true, [[]]); // one unnamed entry
+palette_shape!(k_palette_chunk_35, 35, 9, true, [[(26, 7)], [(26, 1)]]); // one named entry / named + unnamed
 
 /// legacy chunks 0x0004 / 0x0011: opaque entries at the cumulative packet offsets (sum of the skip bytes).
 fn check_old_chunk(data: &[u8], six_bit: bool) -> bool {
@@ -164,7 +168,7 @@ fn check_old_chunk(data: &[u8], six_bit: bool) -> bool {
             k += 1;
         }
     }
-    match (got, ok) {
+    match (&got, ok) {
         (Ok(p), true) => {
             // later packets overwrite earlier entries with the same index
             let mut i = 0;
@@ -190,6 +194,7 @@ fn check_old_chunk(data: &[u8], six_bit: bool) -> bool {
         (Ok(_), false) => assert!(false, "legacy palette decoder accepted a chunk the format rejects"),
         (Err(_), true) => assert!(false, "legacy palette decoder rejected a well-formed chunk"),
     }
+    core::mem::forget(got); // dropping io::Error (bit-packed pointer repr) is very expensive for CBMC
     decoded_ok
 }
 
